@@ -2,7 +2,10 @@ package main
 
 import (
 	"fmt"
+	"math"
+	"sort"
 	"strings"
+	"time"
 
 	"github.com/tdewolff/canvas"
 	"verifharness/hc"
@@ -27,12 +30,12 @@ func fills(rule int, w int) bool {
 }
 
 func run(c *hc.Ctx) {
-	// L1: the Settle row of the InResult table
+	// L1: the Settle row of the InResult table (self windings up to ±3: merged overlapping segments)
 	inres := canvas.VerifFuncs["SweepPoint.InResult"].(func(bool, bool, int, int, int, int, int, canvas.FillRule) uint8)
 	for r := 0; r < 4; r++ {
 		for open := 0; open < 2; open++ {
 			for a := -4; a <= 4; a++ {
-				for s := -2; s <= 2; s++ {
+				for s := -3; s <= 3; s++ {
 					c.Case(fmt.Sprintf("L1 SweepPoint.InResult 0 %d 0 0 %d %d 0 %d", open, s, a, r), "=",
 						fmt.Sprint(inres(false, open == 1, 0, 0, s, a, 0, canvas.FillRule(r))))
 				}
@@ -41,131 +44,502 @@ func run(c *hc.Ctx) {
 	}
 	c.Count("l1:InResult-settle-row")
 
+	// L2 column model against the real computeSweepFields / InResult / mergeOverlapping
+	c.WithStream("c02-columns", func() {
+		runColumns(c, c.N*2)
+		runMerges(c, c.N*2)
+	})
+	// L2 operand preparation: the real AddPathEndpoints against its model
+	c.WithStream("c02-endpoints", func() { runEndpoints(c, c.N) })
+
+	// L3 verdicts + final sweep/tracer state on real Settle runs
 	for it := 0; it < c.N; it++ {
-		var pool []hc.P2
-		class := []int{0, 0, 0, 1, 2, 3, 4}[c.Intn(7)]
-		closeAll := !c.Chance(0.15)
-		P := c.GenPolygon(class, &pool, closeAll)
-		if c.Chance(0.2) {
-			// a frame with several holes / islands, many stacked in the same columns (hole above hole,
-			// island in hole): the nesting depth of each result contour decides its orientation
-			class, closeAll = 5, true
-			P = &canvas.Path{}
-			rect := func(x0, y0, w, h float64, ccw bool) {
-				P.MoveTo(x0, y0)
-				if ccw {
-					P.LineTo(x0+w, y0)
-					P.LineTo(x0+w, y0+h)
-					P.LineTo(x0, y0+h)
-				} else {
-					P.LineTo(x0, y0+h)
-					P.LineTo(x0+w, y0+h)
-					P.LineTo(x0+w, y0)
-				}
-				P.Close()
-			}
-			occ := c.Bool()
-			rect(-9, -9, 18, 18, occ)
-			cols := []float64{-7, -6, -2, -1, 3, 4}
-			for k, n := 0, 2+c.Intn(4); k < n; k++ {
-				x0 := cols[c.Intn(len(cols))]
-				y0 := float64(c.Intn(15) - 8)
-				rect(x0, y0, float64(1+c.Intn(3)), float64(1+c.Intn(2)), c.Chance(0.2) == occ)
-			}
-		} else if c.Chance(0.5) {
-			// several contours sharing vertices: overlaps, nesting, opposite orientations
-			P = P.Append(c.GenPolygon([]int{0, 1, 2, 3, 4}[c.Intn(5)], &pool, closeAll))
+		P, class, _ := genInput(c)
+		judge(c, P, class, it == 0)
+	}
+	// boundary classes and (thorough) larger inputs, on their own stream
+	c.WithStream("c02-sweeps", func() { runSweeps(c) })
+}
+
+// hung counts the calls that did not return within the time limit; their goroutines keep spinning
+// (they cannot be stopped), so after a few of them no further large inputs are generated.
+var hung int
+
+// tryTimed runs f under recover like hc.Try, but gives up after 10 s: a Settle call that does not
+// return is a failure with an input, not a stuck check.
+func tryTimed(f func()) (msg string, timedOut bool) {
+	done := make(chan string, 1)
+	go func() { done <- hc.Try(f) }()
+	select {
+	case msg = <-done:
+		return msg, false
+	case <-time.After(10 * time.Second):
+		hung++
+		return "", true
+	}
+}
+
+// judge runs Settle on P under the four rules through the real entry points, has the Lean
+// specification judge region / winding / crossings (SETTLE lines) and the final sweep state (STRACE
+// lines), and re-settles the result.
+func judge(c *hc.Ctx, P *canvas.Path, class int, sample bool) {
+	fp := P.Flatten(canvas.Tolerance)
+	cp, ok := hc.Contours(fp)
+	if !ok {
+		c.Count("skip-undecodable")
+		return
+	}
+	open := !fp.Closed() || strings.Count(fp.String(), "M") != strings.Count(fp.String(), "z")
+	overl := hc.OverlappingEdges(cp)
+	nseg := 0
+	for _, ct := range cp {
+		nseg += len(ct)
+	}
+	c.Count(fmt.Sprintf("input:segments-bucket:%d", (nseg+9)/10*10))
+	c.Count(fmt.Sprintf("input:subpaths:%d", min(len(cp), 8)))
+	if overl {
+		c.Count("input:degenerate:overlapping-edges")
+	} else if !open && nearOverlappingEdges(cp, delta) {
+		c.Count("input:degenerate:near-overlapping-edges")
+	}
+	if open {
+		c.Count("input:open-subpaths")
+	}
+	// cause predicates computed from the input: they are part of the failure kind, so that a
+	// recorded defect class (open subpaths; collinearly overlapping edges) cannot hide another one
+	suffix := causeSuffix(open, cp)
+	for rule := 0; rule < 4; rule++ {
+		c.Evals++
+		var R *canvas.Path
+		viaPaths := c.Chance(0.3) // the Paths entry point, with the compound path as one element
+		if viaPaths {
+			c.Count("entry:Paths.Settle")
+		} else {
+			c.Count("entry:Path.Settle")
 		}
-		fp := P.Flatten(canvas.Tolerance)
-		cp, ok := hc.Contours(fp)
-		if !ok {
-			c.Count("skip-undecodable")
+		var Rx *canvas.Path // written by the call's goroutine; read only when it returned in time
+		msg, timedOut := tryTimed(func() {
+			if viaPaths {
+				Rx = canvas.Paths{P.Copy()}.Settle(canvas.FillRule(rule))
+			} else {
+				Rx = P.Copy().Settle(canvas.FillRule(rule))
+			}
+		})
+		if timedOut {
+			c.Fail("hang:settle"+strings.TrimSpace(suffix), "Settle did not return within 10 s", map[string]any{"rule": ruleNames[rule], "P": P.String()})
 			continue
 		}
-		open := !fp.Closed() || strings.Count(fp.String(), "M") != strings.Count(fp.String(), "z")
-		for rule := 0; rule < 4; rule++ {
-			c.Evals++
-			var R *canvas.Path
-			viaPaths := c.Chance(0.3) // the Paths entry point, with the compound path as one element
-			if viaPaths {
-				c.Count("entry:Paths.Settle")
-			}
-			if msg := hc.Try(func() {
-				if viaPaths {
-					R = canvas.Paths{P.Copy()}.Settle(canvas.FillRule(rule))
-				} else {
-					R = P.Copy().Settle(canvas.FillRule(rule))
-				}
-			}); msg != "" {
-				first := strings.SplitN(msg, "\n", 2)[0]
-				pk := "panic:settle:" + first
-				if hc.OverlappingEdges(cp) {
-					pk += "+overlapping-edges"
-				}
-				c.Fail(pk, "Settle panicked: "+first, map[string]any{"rule": ruleNames[rule], "P": P.String()})
-				continue
-			}
-			// open result subpaths are polylines (the library keeps open subject subpaths open): for the
-			// region they enclose nothing
-			cr, ok := closedContours(R)
-			if !ok {
-				c.Fail("result-not-flat", "Settle result is not a flat well-formed path", map[string]any{"rule": ruleNames[rule], "P": P.String(), "R": R.String()})
-				continue
-			}
-			suffix := ""
+		R = Rx
+		if msg != "" {
+			first := strings.SplitN(msg, "\n", 2)[0]
+			c.Fail("panic:settle:"+first+strings.TrimSpace(suffix), "Settle panicked: "+first, map[string]any{"rule": ruleNames[rule], "P": P.String()})
 			if open {
-				suffix = " +open"
-			} else if hc.OverlappingEdges(cp) {
-				suffix = " +overlapping-edges"
-				c.Count("input-with-overlapping-edges")
+				judgeClosedVariant(c, fp, rule)
 			}
-			pts := c.SamplePoints(40, cp, cr)
-			if c.Tier == "search" {
-				for _, pt := range pts {
-					if hc.DistToContours(pt, cp) < 4*delta || hc.DistToContours(pt, cr) < 4*delta {
-						continue
-					}
-					exp := fills(rule, hc.WnFloat(pt, cp))
-					wr := hc.WnFloat(pt, cr)
-					if exp != (wr != 0) {
-						cls := "boundary"
-						if (wr%2 != 0) == exp {
-							cls = "orientation-only"
-						}
-						c.Fail("settle:"+ruleNames[rule]+":"+cls+strings.TrimSpace(suffix), fmt.Sprintf("Settle(%s): point (%v,%v) expected filled=%v, result winding %d", ruleNames[rule], pt.X, pt.Y, exp, wr),
-							map[string]any{"rule": ruleNames[rule], "P": P.String(), "R": R.String(), "point": []float64{pt.X, pt.Y}})
-						break
-					} else if wr != 0 && wr != 1 {
-						c.Fail("settle:"+ruleNames[rule]+":winding-not-01"+strings.TrimSpace(suffix), fmt.Sprintf("Settle(%s): point (%v,%v) has winding %d in the result", ruleNames[rule], pt.X, pt.Y, wr),
-							map[string]any{"rule": ruleNames[rule], "P": P.String(), "R": R.String(), "point": []float64{pt.X, pt.Y}})
-						break
-					}
+			continue
+		}
+		// open result subpaths are polylines (the library keeps open subject subpaths open): for the
+		// region they enclose nothing
+		cr, ok := closedContours(R)
+		if !ok {
+			c.Fail("result-not-flat", "Settle result is not a flat well-formed path", map[string]any{"rule": ruleNames[rule], "P": P.String(), "R": R.String()})
+			continue
+		}
+		m := 40
+		if c.Tier == "thorough" {
+			m = 64
+		}
+		pts := samplePts(c, m, cp, cr)
+		if c.Tier == "search" {
+			floatOracle(c, rule, P, R, cp, cr, pts, suffix)
+		}
+		line := fmt.Sprintf("SETTLE %d %s P %s R %s PTS %s", rule, hc.H(delta), hc.PolyTokens(cp), hc.PolyTokens(cr), hc.PtsTokens(pts))
+		c.Case(line, "!", "settle:"+ruleNames[rule]+suffix)
+		c.Count(fmt.Sprintf("rule:%s class:%d open:%v", ruleNames[rule], class, open))
+		holes := 0
+		for _, ct := range cr {
+			if hc.Area(ct) < 0 {
+				holes++
+			}
+		}
+		c.Count(fmt.Sprintf("result:contours:%d", min(len(cr), 8)))
+		c.Count(fmt.Sprintf("result:holes:%d", min(holes, 6)))
+		if len(cr) > 0 {
+			c.Distinct(ruleNames[rule] + P.String())
+		}
+		if sample && rule == 0 {
+			c.Sample(fmt.Sprintf("Settle(%s) of %q -> %q", ruleNames[rule], P.String(), R.String()))
+		}
+
+		// the final sweep/tracer state of the same call, judged by the Lean trace model
+		traceCase(c, P, viaPaths, rule, R, cr, suffix)
+
+		// settling a settled path (any of the four rules): same region under the three filling rules,
+		// nothing under Negative, same canonical form
+		if rule == 0 || c.Chance(0.3) {
+			rule2 := c.Intn(4)
+			var R2 *canvas.Path
+			var R2x *canvas.Path
+			msg, timedOut := tryTimed(func() { R2x = R.Copy().Settle(canvas.FillRule(rule2)) })
+			R2 = R2x
+			if timedOut {
+				c.Fail("hang:resettle"+strings.TrimSpace(suffix), "Settle of a settled path did not return within 10 s", map[string]any{"R": R.String()})
+			} else if msg != "" {
+				first := strings.SplitN(msg, "\n", 2)[0]
+				c.Fail("panic:resettle:"+first+strings.TrimSpace(suffix), "Settle of a settled path panicked: "+first, map[string]any{"R": R.String()})
+			} else if cr2, ok := closedContours(R2); ok {
+				pts2 := samplePts(c, 30, cr, cr2)
+				line := fmt.Sprintf("SETTLE %d %s P %s R %s PTS %s", rule2, hc.H(delta), hc.PolyTokens(cr), hc.PolyTokens(cr2), hc.PtsTokens(pts2))
+				c.Case(line, "!", "resettle"+suffix)
+				c.Count("resettle:" + ruleNames[rule2])
+				moved := maxVertexMove(cr, cr2)
+				if rule2 != 3 && !open && moved > delta && !overl {
+					// a vertex of the re-settled path farther than the snap tolerance from the settled one
+					c.Count("resettle:vertex-moved-beyond-tolerance")
 				}
 			}
-			line := fmt.Sprintf("REGION settle %d %s P %s R %s PTS %s", rule, hc.H(delta), hc.PolyTokens(cp), hc.PolyTokens(cr), hc.PtsTokens(pts))
-			c.Case(line, "!", "settle:"+ruleNames[rule]+suffix)
-			c.Count(fmt.Sprintf("rule:%s class:%d open:%v", ruleNames[rule], class, open))
-			if len(cr) > 0 {
-				c.Distinct(ruleNames[rule] + P.String())
+		}
+
+		// an input with open subpaths fails for the recorded reason only if the same input with
+		// every subpath closed explicitly passes: judge that too, as an ordinary closed case
+		if open && (rule == 0 || c.Chance(0.35)) {
+			judgeClosedVariant(c, fp, rule)
+		}
+	}
+}
+
+// judgeClosedVariant settles the flattened input with every open subpath closed explicitly and has
+// it judged as an ordinary (closed) case: SETTLE verdict + STRACE state.
+func judgeClosedVariant(c *hc.Ctx, fp *canvas.Path, rule int) {
+	Pc := closeAllSubpaths(fp)
+	cpc, ok := hc.Contours(Pc)
+	if !ok {
+		return
+	}
+	var Rc *canvas.Path
+	sfx := causeSuffix(false, cpc)
+	var Rcx *canvas.Path
+	msg, timedOut := tryTimed(func() { Rcx = Pc.Copy().Settle(canvas.FillRule(rule)) })
+	Rc = Rcx
+	if timedOut {
+		c.Fail("hang:settle"+strings.TrimSpace(sfx), "Settle did not return within 10 s", map[string]any{"rule": ruleNames[rule], "P": Pc.String()})
+	} else if msg != "" {
+		first := strings.SplitN(msg, "\n", 2)[0]
+		c.Fail("panic:settle:"+first+strings.TrimSpace(sfx), "Settle panicked: "+first, map[string]any{"rule": ruleNames[rule], "P": Pc.String()})
+	} else if crc, ok := closedContours(Rc); ok {
+		ptsc := samplePts(c, 30, cpc, crc)
+		line := fmt.Sprintf("SETTLE %d %s P %s R %s PTS %s", rule, hc.H(delta), hc.PolyTokens(cpc), hc.PolyTokens(crc), hc.PtsTokens(ptsc))
+		c.Case(line, "!", "settle:"+ruleNames[rule]+sfx)
+		c.Count("open-input-closed-explicitly")
+		traceCase(c, Pc, false, rule, Rc, crc, sfx)
+	}
+}
+
+// causeSuffix names the recorded defect class an input belongs to, decided from the input alone:
+// +open (a subpath without Close), +overlapping-edges (two edges overlap collinearly over a positive
+// length, exact), +near-overlapping-edges (two edges run within the tolerance band 4e-8 of each other
+// over a length of more than 1e-6: they become coincident segments once the sweep snaps them).
+func causeSuffix(open bool, cp [][]hc.P2) string {
+	switch {
+	case open:
+		return " +open"
+	case hc.OverlappingEdges(cp):
+		return " +overlapping-edges"
+	case nearOverlappingEdges(cp, delta):
+		return " +near-overlapping-edges"
+	}
+	return ""
+}
+
+// nearOverlappingEdges: is there a pair of edges e, f such that the part of f whose projection falls
+// on e is longer than 1e-6 and lies within tol of e's line at both of its ends?
+func nearOverlappingEdges(cp [][]hc.P2, tol float64) bool {
+	type edge struct{ a, b hc.P2 }
+	var es []edge
+	for _, ct := range cp {
+		for i := range ct {
+			a, b := ct[i], ct[(i+1)%len(ct)]
+			if a != b {
+				es = append(es, edge{a, b})
 			}
-			if it == 0 && rule == 0 {
-				c.Sample(fmt.Sprintf("Settle(%s) of %q -> %q", ruleNames[rule], P.String(), R.String()))
+		}
+	}
+	for i := range es {
+		e := es[i]
+		d := e.b.Sub(e.a)
+		l := d.Len()
+		if l < 1e-6 {
+			continue
+		}
+		u := d.Mul(1 / l)
+		for j := range es {
+			if i == j {
+				continue
 			}
-			// settling a settled path: same region (read with NonZero), same canonical form
-			if rule == 0 || c.Chance(0.3) {
-				var R2 *canvas.Path
-				if msg := hc.Try(func() { R2 = R.Copy().Settle(canvas.NonZero) }); msg != "" {
-					first := strings.SplitN(msg, "\n", 2)[0]
-					c.Fail("panic:resettle:"+first, "Settle of a settled path panicked: "+first, map[string]any{"R": R.String()})
-				} else if cr2, ok := closedContours(R2); ok {
-					pts2 := c.SamplePoints(30, cr, cr2)
-					line := fmt.Sprintf("REGION settle 0 %s P %s R %s PTS %s", hc.H(delta), hc.PolyTokens(cr), hc.PolyTokens(cr2), hc.PtsTokens(pts2))
-					c.Case(line, "!", "resettle"+suffix)
-					c.Count("resettle")
+			f := es[j]
+			// parameters (arc length along e) and signed distances of f's end points
+			ta, tb := f.a.Sub(e.a).Dot(u), f.b.Sub(e.a).Dot(u)
+			sa, sb := u.Cross(f.a.Sub(e.a)), u.Cross(f.b.Sub(e.a))
+			if ta > tb {
+				ta, tb, sa, sb = tb, ta, sb, sa
+			}
+			lo, hi := math.Max(ta, 0), math.Min(tb, l)
+			if hi-lo <= 1e-6 || tb-ta <= 0 {
+				continue
+			}
+			at := func(t float64) float64 { return sa + (sb-sa)*(t-ta)/(tb-ta) }
+			if math.Abs(at(lo)) < tol && math.Abs(at(hi)) < tol {
+				return true
+			}
+		}
+	}
+	return false
+}
+
+// floatOracle is the float64 search oracle (search tier only; the deciding evaluation is the exact
+// Lean specification).
+func floatOracle(c *hc.Ctx, rule int, P, R *canvas.Path, cp, cr [][]hc.P2, pts []hc.P2, suffix string) {
+	for _, pt := range pts {
+		if hc.DistToContours(pt, cp) < 4*delta || hc.DistToContours(pt, cr) < 4*delta {
+			continue
+		}
+		exp := fills(rule, hc.WnFloat(pt, cp))
+		wr := hc.WnFloat(pt, cr)
+		if exp != (wr != 0) {
+			cls := "boundary"
+			if (wr%2 != 0) == exp {
+				cls = "orientation-only"
+			}
+			c.Fail("settle:"+ruleNames[rule]+":"+cls+strings.TrimSpace(suffix), fmt.Sprintf("Settle(%s): point (%v,%v) expected filled=%v, result winding %d", ruleNames[rule], pt.X, pt.Y, exp, wr),
+				map[string]any{"rule": ruleNames[rule], "P": P.String(), "R": R.String(), "point": []float64{pt.X, pt.Y}})
+			return
+		} else if wr != 0 && wr != 1 {
+			c.Fail("settle:"+ruleNames[rule]+":winding-not-01"+strings.TrimSpace(suffix), fmt.Sprintf("Settle(%s): point (%v,%v) has winding %d in the result", ruleNames[rule], pt.X, pt.Y, wr),
+				map[string]any{"rule": ruleNames[rule], "P": P.String(), "R": R.String(), "point": []float64{pt.X, pt.Y}})
+			return
+		}
+	}
+}
+
+// closeAllSubpaths returns the flat path with every open subpath closed explicitly.
+func closeAllSubpaths(fp *canvas.Path) *canvas.Path {
+	out := &canvas.Path{}
+	for _, sp := range fp.Split() {
+		q := sp.Copy()
+		if !q.Closed() {
+			q.Close()
+		}
+		out = out.Append(q)
+	}
+	return out
+}
+
+// maxVertexMove is the largest distance from a vertex of b to the contours of a.
+func maxVertexMove(a, b [][]hc.P2) float64 {
+	if len(a) == 0 {
+		return 0
+	}
+	m := 0.0
+	for _, ct := range b {
+		for _, v := range ct {
+			if d := hc.DistToContours(v, a); d > m {
+				m = d
+			}
+		}
+	}
+	return m
+}
+
+// samplePts: half of the query points are centres of the faces of the arrangement of input and
+// result (for every slab between consecutive vertex abscissae, the middle of every gap between
+// consecutive edges at the slab's centre line, plus one below and one above all edges), the rest
+// comes from the shared grid/random sampler.
+func samplePts(c *hc.Ctx, m int, css ...[][]hc.P2) []hc.P2 {
+	faces := facePoints(css...)
+	var pts []hc.P2
+	if len(faces) > 0 {
+		for i := 0; i < m/2; i++ {
+			pts = append(pts, faces[c.Intn(len(faces))])
+		}
+	}
+	return append(pts, c.SamplePoints(m-len(pts), css...)...)
+}
+
+func facePoints(css ...[][]hc.P2) []hc.P2 {
+	type edge struct{ a, b hc.P2 }
+	var es []edge
+	var xs []float64
+	for _, cs := range css {
+		for _, ct := range cs {
+			for i, v := range ct {
+				xs = append(xs, v.X)
+				w := ct[(i+1)%len(ct)]
+				if v.X != w.X {
+					if v.X < w.X {
+						es = append(es, edge{v, w})
+					} else {
+						es = append(es, edge{w, v})
+					}
 				}
 			}
 		}
 	}
+	if len(xs) == 0 {
+		return nil
+	}
+	sort.Float64s(xs)
+	var out []hc.P2
+	for i := 0; i+1 < len(xs); i++ {
+		if xs[i+1]-xs[i] < 1e-6 {
+			continue
+		}
+		xm := xs[i] + (xs[i+1]-xs[i])*0.4871
+		var ys []float64
+		for _, e := range es {
+			if e.a.X < xm && xm < e.b.X {
+				t := (xm - e.a.X) / (e.b.X - e.a.X)
+				ys = append(ys, e.a.Y+t*(e.b.Y-e.a.Y))
+			}
+		}
+		if len(ys) == 0 {
+			continue
+		}
+		sort.Float64s(ys)
+		out = append(out, hc.P2{X: xm, Y: ys[0] - 0.29}, hc.P2{X: xm, Y: ys[len(ys)-1] + 0.31})
+		for j := 0; j+1 < len(ys); j++ {
+			if ys[j+1]-ys[j] > 1e-6 {
+				out = append(out, hc.P2{X: xm, Y: ys[j] + (ys[j+1]-ys[j])*0.4713})
+			}
+		}
+	}
+	return out
+}
+
+// runSweeps: boundary classes that the random generator reaches rarely, enumerated.
+func runSweeps(c *hc.Ctx) {
+	thorough := c.Tier == "thorough"
+	// star polygons {n/d} for all n, d (d not coprime: contours traversed several times), at a grid
+	// aligned and at a generic rotation
+	for n := 3; n <= 11; n++ {
+		for d := 1; d <= n/2; d++ {
+			if !thorough && c.Chance(0.7) {
+				continue
+			}
+			for _, rot := range []float64{0, 0.3217} {
+				P := &canvas.Path{}
+				for i := 0; i < n; i++ {
+					a := rot + 2*math.Pi*float64(i*d%n)/float64(n)
+					if i == 0 {
+						P.MoveTo(5*math.Cos(a), 5*math.Sin(a))
+					} else {
+						P.LineTo(5*math.Cos(a), 5*math.Sin(a))
+					}
+				}
+				P.Close()
+				c.Count("sweep:star")
+				judge(c, P, 6, false)
+			}
+		}
+	}
+	// nesting towers: k concentric squares with every combination of orientations (k <= 4), the
+	// nesting depth / hole rule for every parity pattern
+	for k := 1; k <= 4; k++ {
+		for mask := 0; mask < 1<<k; mask++ {
+			if !thorough && c.Chance(0.6) {
+				continue
+			}
+			P := &canvas.Path{}
+			for i := 0; i < k; i++ {
+				r := float64(9 - 2*i)
+				if mask>>i&1 == 0 {
+					P.MoveTo(-r, -r)
+					P.LineTo(r, -r)
+					P.LineTo(r, r)
+					P.LineTo(-r, r)
+				} else {
+					P.MoveTo(-r, -r)
+					P.LineTo(-r, r)
+					P.LineTo(r, r)
+					P.LineTo(r, -r)
+				}
+				P.Close()
+			}
+			c.Count("sweep:nesting-tower")
+			judge(c, P, 7, false)
+		}
+	}
+	// the same contour traversed k times, and traversed back and forth
+	for k := 2; k <= 4; k++ {
+		for rev := 0; rev < 2; rev++ {
+			P := &canvas.Path{}
+			base := []hc.P2{{X: -3, Y: -2}, {X: 4, Y: -1}, {X: 2, Y: 5}}
+			for i := 0; i < k; i++ {
+				b := base
+				if rev == 1 && i%2 == 1 {
+					b = []hc.P2{base[2], base[1], base[0]}
+				}
+				P.MoveTo(b[0].X, b[0].Y)
+				P.LineTo(b[1].X, b[1].Y)
+				P.LineTo(b[2].X, b[2].Y)
+				P.Close()
+			}
+			c.Count("sweep:coincident-contours")
+			judge(c, P, 8, false)
+		}
+	}
+	if thorough {
+		// larger inputs: four to six polygons appended
+		for it := 0; it < c.N/6 && hung < 3; it++ {
+			var pool []hc.P2
+			P := &canvas.Path{}
+			for k, n := 0, 4+c.Intn(3); k < n; k++ {
+				P = P.Append(c.GenPolygon([]int{0, 0, 1, 2, 3, 4}[c.Intn(6)], &pool, true))
+			}
+			c.Count("sweep:large")
+			judge(c, P, 9, false)
+		}
+	}
+}
+
+// genInput draws one input path: class 0..4 of hc.GenPolygon (15% with open subpaths), 20% a frame
+// with stacked holes/islands (class 5), otherwise 50% two polygons appended (shared vertices).
+func genInput(c *hc.Ctx) (*canvas.Path, int, bool) {
+	var pool []hc.P2
+	class := []int{0, 0, 0, 1, 2, 3, 4}[c.Intn(7)]
+	closeAll := !c.Chance(0.15)
+	P := c.GenPolygon(class, &pool, closeAll)
+	if c.Chance(0.2) {
+		// a frame with several holes / islands, many stacked in the same columns (hole above hole,
+		// island in hole): the nesting depth of each result contour decides its orientation
+		class, closeAll = 5, true
+		P = &canvas.Path{}
+		rect := func(x0, y0, w, h float64, ccw bool) {
+			P.MoveTo(x0, y0)
+			if ccw {
+				P.LineTo(x0+w, y0)
+				P.LineTo(x0+w, y0+h)
+				P.LineTo(x0, y0+h)
+			} else {
+				P.LineTo(x0, y0+h)
+				P.LineTo(x0+w, y0+h)
+				P.LineTo(x0+w, y0)
+			}
+			P.Close()
+		}
+		occ := c.Bool()
+		rect(-9, -9, 18, 18, occ)
+		cols := []float64{-7, -6, -2, -1, 3, 4}
+		for k, n := 0, 2+c.Intn(4); k < n; k++ {
+			x0 := cols[c.Intn(len(cols))]
+			y0 := float64(c.Intn(15) - 8)
+			rect(x0, y0, float64(1+c.Intn(3)), float64(1+c.Intn(2)), c.Chance(0.2) == occ)
+		}
+	} else if c.Chance(0.5) {
+		// several contours sharing vertices: overlaps, nesting, opposite orientations
+		P = P.Append(c.GenPolygon([]int{0, 1, 2, 3, 4}[c.Intn(5)], &pool, closeAll))
+	}
+
+	return P, class, closeAll
 }
 
 // closedContours returns the contours of a flat path, every subpath implicitly closed.
